@@ -71,6 +71,11 @@ type ChanV struct {
 	closed bool
 	elem   types.Type
 	name   string
+	// happens-before bookkeeping (race detection)
+	bufVC    []VC
+	recvHist []VC
+	sendN    int
+	closeVC  VC
 }
 
 func (c *ChanV) String() string { return fmt.Sprintf("chan#%d", c.id) }
